@@ -98,7 +98,24 @@ pub fn tick(kind: Kind) {
 #[derive(Clone, Copy, Debug, PartialEq, Eq)]
 pub enum TokState {
     Live,
-    Dropped
+    Dropped,
+    /// An object of a type without a destructor (type shapes `plainkey` / `plainval`): it has an
+    /// identity, but nobody is told when it goes away.
+    Untracked
+}
+
+/// Type shapes (cargo features of the harness): the same instrumented key / value types with
+/// a different *shape* as far as the crate under test can tell - no drop glue for the key
+/// or the value (`mem::needs_drop` is false), or a layout under which `size_of::<Entry<K, V>>()`
+/// exceeds the sizes of its parts (padding).
+pub const TRACK_K: bool = !cfg!(feature = "shape_plainkey");
+pub const TRACK_V: bool = !cfg!(feature = "shape_plainval");
+
+pub fn shape_name() -> &'static str {
+    if cfg!(feature = "shape_plainkey") { "plainkey" }
+    else if cfg!(feature = "shape_plainval") { "plainval" }
+    else if cfg!(feature = "shape_padded") { "padded" }
+    else { "default" }
 }
 
 #[derive(Default)]
@@ -132,6 +149,10 @@ pub fn set_collapse(m: u32) {
 }
 
 fn mint(origin: Option<u64>) -> u64 {
+    mint_as(origin, true)
+}
+
+fn mint_as(origin: Option<u64>, tracked: bool) -> u64 {
     if QUIET.with(|q| q.get()) {
         return 0;
     }
@@ -140,7 +161,7 @@ fn mint(origin: Option<u64>) -> u64 {
         let mut r = r.borrow_mut();
         r.next += 1;
         let t = r.next;
-        r.state.insert(t, TokState::Live);
+        r.state.insert(t, if tracked { TokState::Live } else { TokState::Untracked });
 
         if let Some(o) = origin {
             r.origin.insert(t, o);
@@ -167,6 +188,7 @@ fn note_drop(tok: u64) {
                         r.anomalies.push(format!("double_drop:{}", tok));
                         r.window.push(tok);
                     },
+                    Some(TokState::Untracked) => { },
                     None => {
                         r.anomalies.push(format!("unknown_drop:{}", tok));
                     }
@@ -249,6 +271,7 @@ impl PartialEq for KeyId {
 
 impl Eq for KeyId { }
 
+#[cfg(not(feature = "shape_padded"))]
 #[repr(C)]
 pub struct TKey {
     pub id: KeyId,
@@ -256,17 +279,40 @@ pub struct TKey {
     pub tok: u64
 }
 
+/// Shape `padded`: 20 bytes aligned to 4 (and a 16-byte value), so that an `Entry<TKey, TVal>`
+/// has 4 bytes of padding that belong neither to the key nor to the value - its size is the
+/// same 64 bytes as in the default shape, but no longer the sum of its parts.
+#[cfg(feature = "shape_padded")]
+#[repr(C, packed(4))]
+pub struct TKey {
+    pub id: KeyId,
+    pub heap: u32,
+    pub tok: u64,
+    pub extra: u32
+}
+
 impl TKey {
+    #[cfg(not(feature = "shape_padded"))]
+    fn make(id: KeyId, heap: u32, tok: u64) -> TKey {
+        TKey { id, heap, tok }
+    }
+
+    #[cfg(feature = "shape_padded")]
+    fn make(id: KeyId, heap: u32, tok: u64) -> TKey {
+        TKey { id, heap, tok, extra: 0 }
+    }
+
     pub fn new(id: u32, heap: u32) -> TKey {
-        TKey { id: KeyId(id), heap, tok: mint(None) }
+        TKey::make(KeyId(id), heap, mint_as(None, TRACK_K))
     }
 
     /// A key object used for lookups only; it is not tracked.
     pub fn probe(id: u32) -> TKey {
-        TKey { id: KeyId(id), heap: 0, tok: 0 }
+        TKey::make(KeyId(id), 0, 0)
     }
 }
 
+#[cfg(not(feature = "shape_plainkey"))]
 impl Drop for TKey {
     fn drop(&mut self) {
         note_drop(self.tok);
@@ -300,7 +346,7 @@ impl Clone for TKey {
         tick(Kind::Clone);
         let m = COLLAPSE.with(|c| c.get());
         let id = if m > 0 { KeyId(self.id.0 % m) } else { self.id };
-        TKey { id, heap: self.heap, tok: mint(Some(self.tok)) }
+        TKey::make(id, self.heap, mint_as(Some(self.tok), TRACK_K))
     }
 }
 
@@ -317,6 +363,7 @@ impl std::fmt::Debug for TKey {
     }
 }
 
+#[cfg(not(feature = "shape_padded"))]
 pub struct TVal {
     pub tok: u64,
     pub heap: usize,
@@ -325,16 +372,39 @@ pub struct TVal {
     pub clone_delta: i64
 }
 
+#[cfg(feature = "shape_padded")]
+pub struct TVal {
+    pub tok: u64,
+    pub heap: usize
+}
+
 impl TVal {
+    #[cfg(not(feature = "shape_padded"))]
+    pub fn raw(tok: u64, heap: usize, clone_delta: i64) -> TVal {
+        TVal { tok, heap, clone_delta }
+    }
+
+    #[cfg(feature = "shape_padded")]
+    pub fn raw(tok: u64, heap: usize, _clone_delta: i64) -> TVal {
+        TVal { tok, heap }
+    }
+
+    #[cfg(not(feature = "shape_padded"))]
+    fn delta(&self) -> i64 { self.clone_delta }
+
+    #[cfg(feature = "shape_padded")]
+    fn delta(&self) -> i64 { 0 }
+
     pub fn new(heap: usize) -> TVal {
-        TVal { tok: mint(None), heap, clone_delta: 0 }
+        TVal::raw(mint_as(None, TRACK_V), heap, 0)
     }
 
     pub fn with_clone_delta(heap: usize, clone_delta: i64) -> TVal {
-        TVal { tok: mint(None), heap, clone_delta }
+        TVal::raw(mint_as(None, TRACK_V), heap, clone_delta)
     }
 }
 
+#[cfg(not(feature = "shape_plainval"))]
 impl Drop for TVal {
     fn drop(&mut self) {
         note_drop(self.tok);
@@ -344,8 +414,8 @@ impl Drop for TVal {
 impl Clone for TVal {
     fn clone(&self) -> TVal {
         tick(Kind::Clone);
-        let heap = (self.heap as i64 + self.clone_delta).max(0) as usize;
-        TVal { tok: mint(Some(self.tok)), heap, clone_delta: self.clone_delta }
+        let heap = (self.heap as i64 + self.delta()).max(0) as usize;
+        TVal::raw(mint_as(Some(self.tok), TRACK_V), heap, self.delta())
     }
 }
 
